@@ -442,6 +442,20 @@ func (w *world) onEvent(e *simapi.Event) {
 }
 
 func (w *world) env(e replay.Entry) {
+	if e.K == "grabcreate" {
+		// another owner creates, as its controller, a package object that does not exist yet
+		var q types.UID
+		for uid, a := range w.uidBy {
+			if a == "Q" {
+				q = uid
+			}
+		}
+		o := crd(e.O, "other")
+		o.OwnerReferences = []metav1.OwnerReference{{APIVersion: "pkg.crossplane.io/v1", Kind: "ProviderRevision", Name: "other-r1", UID: q, Controller: ptr.To(true), BlockOwnerDeletion: ptr.To(true)}}
+		w.s.Put(o)
+		w.emit("env", map[string]any{"verb": e.K, "target": e.O, "abs": e.K + ":" + e.O})
+		return
+	}
 	if e.K == "grab" {
 		// another owner makes itself the controller of a package object (in the middle of an Establish)
 		w.grab(e.O)
